@@ -47,12 +47,50 @@ SHORT = {
  "C19-b": ("minimum deposit compared by amount only (denomination check lost)", "deposit >= minimum in a foreign denomination"),
  "C20-a": ("handleManifest waits on Done() instead of ShuttingDown()", "submit for a deployment whose manager is shutting down (deployment closed) before the service reaped it"),
  "C20-b": ("rejected requests stay queued and are answered again", "three consecutive rejected submissions (or two + shutdown) with lease and chain data present"),
+ "C01-c": ("settlement replaces (instead of adding to) a payment's un-withdrawn balance; the account is still debited", ">=2 leases on one account, a settle triggered by the other lease while one payment carries a balance"),
+ "C01-d": ("overdrawn account saved before the remainder is distributed: the remainder is recorded twice", "overdraft with deposit not a multiple of the block rate"),
+ "C02-c": ("deposit settles first, then stores the stale pre-settlement copy of the account (lost update)", "deposit into an account with an open payment after a non-zero gap"),
+ "C02-d": ("paymentWithdraw no longer saves a zero-balance payment: a close at zero balance is lost, the stream keeps accruing", "close of a lease in the block of its last withdrawal"),
+ "C03-c": ("overdraft does not persist payments whose balance is zero", "withdrawal at the exact block of exhaustion, then any later settle"),
+ "C03-d": ("same edit as C01-c seen through C03 (coins left in the module when nothing is open)", ">=2 leases on one account"),
+ "C04-c": ("account-closed hook skips paused groups: a paused group survives the end of its deployment", "pause a group, then close or overdraw the deployment"),
+ "C04-d": ("GroupSpec.Price() multiplies the running total by the count: order maximum inflated", ">=2 resource entries, a later one with count >= 2, bid between true and inflated maximum"),
+ "C05-c": ("zero-gap settle returns no payments to AccountClose: payments stay open under a closed account", "close-deployment in the block in which the account was already settled"),
+ "C05-d": ("closing an account whose balance is exactly zero is not persisted", "close-deployment at exactly the block the deposit is used up"),
+ "C06-c": ("close-bid resolves the lease through the order: a losing bidder closes the winner's lease", ">=2 bidders, the loser sends close-bid for its lost bid"),
+ "C06-d": ("settled payment looked up through a range-variable pointer (go 1.16 semantics): the last payment of the account is acted on", ">=2 payments on one account, action on one that does not sort last"),
+ "C07-c": ("update-provider checks the leased orders in Go-map order: gas and log of a rejection vary per execution", "provider with >=2 active leases, update incompatible with some but not all"),
+ "C07-d": ("MsgCreateCertificate.ValidateBasic refuses expired certificates by the wall clock", "a certificate whose NotAfter lies between two executions of the same transaction"),
+ "C08-c": ("attribute match through a map lookup: a required attribute with an empty value is 'covered' by a missing key", "order requirement with an empty value"),
+ "C08-d": ("tenant/provider separation compared as strings: the upper-case spelling of the tenant's own address passes", "tenant that is also a registered provider bids on its own order with an upper-case address"),
+ "C09-c": ("certificate validity evaluated at now+2min ('clock drift tolerance')", "certificate whose NotBefore is less than two minutes ahead"),
+ "C09-d": ("authenticated owner kept in a variable shared by all requests of a route", "two authenticated requests of different accounts interleaved between the assignment and its use"),
+ "C10-c": ("version attribute of chain events loses leading zeros (TrimLeft with a cutset)", "deployment update to a version whose hex form starts with 0, received through the event parser"),
+ "C10-d": ("queued manifest requests held by value: the stored manifest pointer aliases the loop variable", ">=2 uploads queued while the deployment fetch is in flight, the last one invalid"),
+ "C11-c": ("protocol pointer shared by all ports of a service's network policy", "one service with two globally exposed ports of different protocols"),
+ "C11-d": ("deployment update rebuilds the pod spec without the service-account-token switch", "a second Deploy for an existing lease"),
+ "C12-c": ("status answer cached and not invalidated on the successful release path", "status, unreserve, status"),
+ "C12-d": ("storage scaled by the memory commit level", "memory commit level > storage commit level"),
+ "C13-c": ("in-flight create-bid result collected only after the close-bid decision", "order ends while the create-bid broadcast is in flight and then succeeds"),
+ "C13-d": ("failed existing-bid lookup treated as 'no bid yet'", "restart with an open order the provider already bid on, lookup fails"),
+ "C14-c": ("second manifest update during one in-flight deploy is dropped", ">=2 updates while one cluster operation is outstanding"),
+ "C14-d": ("hostnames not released when the lease closes during the hostname reservation", "lease-closed between ReserveHostnames being sent and its answer being read"),
+ "C15-c": ("delivery fast path: a new event overtakes the subscriber's backlog", "subscriber with a backlog whose reader is waiting when the next publish is handled"),
+ "C15-d": ("drained subscriber forwards clone requests to its parent: deadlock with a publish in progress", "Clone() on an empty subscriber racing with Publish()"),
+ "C16-c": ("overdraft 're-closes' an already closed group: extra group-closed event", "deployment with a group closed earlier, then an overdraft"),
+ "C16-d": ("attestation update emits no event (emit only on first creation)", "the same auditor signs the same provider twice"),
+ "C17-c": ("duplicate check became a prefix scan of the key", "same owner registers serial 256 then serial 1 (byte encodings prefix-related, longer first)"),
+ "C17-d": ("owner matched against the Issuer CN instead of the Subject CN", "certificate that is not self-signed: issued by A, names B"),
+ "C19-c": ("duplicate group names only detected when adjacent", ">=3 groups, equal names not adjacent"),
+ "C19-d": ("per-unit CPU bound checked on the value truncated to 32 bits", "cpu = 2^32 + in-range value"),
+ "C20-c": ("expected version taken from the fetched chain data only", "deployment-updated event arrives while the fetch is in flight"),
+ "C20-d": ("'no lease' rejection moved to submission time; the later path answers nobody", "submission queued while a lease existed, lease lost before the fetch answer"),
 }
 
 def main():
     rows = []
     os.makedirs(DST, exist_ok=True)
-    for d in sorted(glob.glob(SRC + "/C*/[ab]")):
+    for d in sorted(glob.glob(SRC + "/C*/[abcd]")):
         prop, var = d.split("/")[-2:]
         key = f"{prop}-{var}"
         res = os.path.join(d, "RESULT.txt")
